@@ -32,6 +32,10 @@ CHECKS = {
          "6", "bounded-exhaustive enumeration of (a,b,metadata) on package lib with reference-model comparison"),
  "C18": ("v1 library: all ordered pairs of the universes incl. integer-looking / escape-needing keys: RenderPatch evaluated by the independent RFC 6902 evaluator and RenderMerge by the RFC 7386 pseudocode must give b; read back with the v1 readers and applied to a must give b",
          "6", "bounded-exhaustive enumeration of pairs with independent RFC 6902 / RFC 7386 evaluators"),
+ "C15": ("call-history state exploration: for every (a,b,options) of the universes, and for diffs read from merge patches and JSON Patch documents, every history of read-only API calls up to length 2 (thorough: 3) over 8 operations is executed on live values; after each call the memory snapshot of (a,b,d) must be the initial one, each output must equal the fresh-value output and the final Patch must be unaffected; plus a 40-repetition determinism leg",
+         "6", "exhaustive call-history exploration (explicit state = memory snapshot of the diff and documents) up to a depth bound"),
+ "C16": ("every one-rune BMP string, astral samples, special two-rune strings, YAML-ambiguous words (alone and as key/value pairs), a number alphabet and U_4 in 9 embeddings: two independent YAML writers -> ReadYamlString versus ReadJsonString and the reference value; Yaml()/Json() read-back; CLI json2yaml|yaml2json on a subset",
+         "6", "bounded-exhaustive enumeration of payload strings x embeddings with independent YAML writers as oracle"),
 }
 NOT_YET = {}
 def main():
